@@ -318,6 +318,10 @@ def _esc(s, attr=False):
 
 def ser(node, root=True):
   tag, attrs, kids = node
+  if tag == "#deep":
+    # "very long" structure: n nested copies of one start tag around the inner element, serialised without recursion
+    opening = "<" + attrs["tag"] + "".join(f' {k}="{_esc(v, True)}"' for k, v in attrs["attrs"].items()) + ">"
+    return opening * attrs["n"] + "".join(_esc(k) if isinstance(k, str) else ser(k, False) for k in kids) + f"</{attrs['tag']}>" * attrs["n"]
   out = ["<", tag]
   if root:
     for p, u in NS.items():
@@ -409,6 +413,12 @@ TTML_SEEDS = {
   ),
 }
 
+TTML_SEEDS["ttml-untimed-2regions"] = E(
+  "tt", {"xml:lang": "en"},
+  E("head", {}, E("layout", {}, E("region", {"xml:id": "r1", "tts:origin": "10% 10%", "tts:extent": "80% 20%"}),
+                E("region", {"xml:id": "r2", "tts:origin": "10% 70%", "tts:extent": "80% 20%", "tts:displayAlign": "after"}))),
+  E("body", {}, E("div", {}, E("p", {"region": "r1"}, "always"), E("p", {"region": "r2", "begin": "1s"}, "from 1s on"), E("p", {"region": "r2", "end": "1s"}, ""))))
+
 ELEMENT_NAMES = ["tt", "head", "styling", "layout", "body", "div", "p", "span", "br", "set", "region", "style", "initial", "metadata", "foo", "ttm:title"]
 RUBY_KINDS = ["container", "base", "text", "delimiter", "baseContainer", "textContainer"]
 
@@ -470,7 +480,10 @@ def _walk(node, path=()):
 
 
 def _copy(node):
-  return [node[0], dict(node[1]), [k if isinstance(k, str) else _copy(k) for k in node[2]]]
+  at = dict(node[1])
+  if node[0] == "#deep":
+    at["attrs"] = dict(at["attrs"])
+  return [node[0], at, [k if isinstance(k, str) else _copy(k) for k in node[2]]]
 
 
 def _at(root, path):
@@ -578,11 +591,7 @@ class XmlSpace:
       nd[1][op[2]] = op[3]
     elif kind == "deep":
       # "very long" for structure: the element nested in `depth` copies of its own start tag
-      inner = _copy(nd)
-      cur = inner
-      for _ in range(op[2]):
-        cur = [nd[0], dict(nd[1]), [cur]]
-      parent[2][idx] = cur
+      parent[2][idx] = ["#deep", {"tag": nd[0], "attrs": dict(nd[1]), "n": op[2]}, [_copy(nd)]]
     else:
       raise ValueError(kind)
     return root
@@ -839,7 +848,7 @@ class StlSpace(DevSpace):
   """field / TF-byte deviations + block-level deviations of an STL file"""
 
   def __init__(self, name, data, cfg, pairs=False, tf_bytes=True, only=None):
-    """only: None = every token; 'fields' = GSI and TTI fields (no TF); 'tti' = TTI fields and TF (no GSI)"""
+    """only: None = every token; 'fields' = GSI and TTI fields (no TF); 'tti' = TTI fields and TF (no GSI); 'none' = block-level deviations only"""
     toks = stl_tokens(data, tf_bytes)
     values = {}
     for t in toks:
@@ -855,6 +864,8 @@ class StlSpace(DevSpace):
       positions = [i for i, t in enumerate(toks) if ".TF" not in t[3]]
     elif only == "tti":
       positions = [i for i, t in enumerate(toks) if not t[3].startswith("GSI.")]
+    elif only == "none":
+      positions = []
     super().__init__(name, "stl", toks, values=vals, join=lambda ts: b"".join(t[0] for t in ts), pairs=pairs, positions=positions,
                      extra={"cfg": cfg})
     # block-level and byte-offset truncations
